@@ -275,6 +275,10 @@ def hasWeights : List EdgeTuple → Bool
   | [] => false
   | _ => true
 
+/-- `weights = np.array([edge[2] for edge in edge_list])` when the first tuple has length 3, else `None` -/
+def tupleWeights (edges : List EdgeTuple) : Option (List Rat) :=
+  if hasWeights edges then some (edges.map fun e => match e.2.2 with | .num w => w | _ => 0) else none
+
 /-- `from_edge_list(edge_list: list, …)` -/
 def fromEdgeListWith (symW : Flags → Bool) (parse : String → Option Int) (edges : List EdgeTuple) (f : Flags) :
     Except PyErr (Graph Ident) :=
@@ -285,8 +289,7 @@ def fromEdgeListWith (symW : Flags → Bool) (parse : String → Option Int) (ed
   else if edges.isEmpty && f.bipartite then .error .indexError
   else if hasW && edges.any (fun e => e.2.2 = .text) then .error .valueError
   else
-    let weights : Option (List Rat) :=
-      if hasW then some (edges.map fun e => match e.2.2 with | .num w => w | _ => 0) else none
+    let weights := tupleWeights edges
     match classify parse (edges.map fun e => (e.1, e.2.1)) with
     | .inl rows => liftNames .int (fromEdgeArrayWith symW ltInt (some id) rows weights f)
     | .inr rows => liftNames .str (fromEdgeArrayWith symW ltStr none rows weights f)
